@@ -14,6 +14,11 @@ DIMZ = {1: 48, 2: 64, 3: 40}
 POSE_OPS = ["update", "scale", "shift", "rotate", "flip"]
 SET_OPS = ["subset", "remove", "intersect", "dropdup", "merge_renumber", "renumber_particles", "renumber_objects",
            "em_roundtrip"]
+CONV_OPS = ["sg_roundtrip", "relion_roundtrip"]
+SCOPE_OF = dict([(o, "pose") for o in POSE_OPS] + [(o, "set") for o in SET_OPS] +
+                [("sg_roundtrip", "sg"), ("relion_roundtrip", "relion")])
+RELION_VERSIONS = [3.0, 3.1, 4.0]
+RELION_PIXELS = [1.0, 2.5, 1.35]
 
 
 def gen_rows(rng, n, tag0, sids):
@@ -43,7 +48,7 @@ def gen_case(rng, idx):
     ops = []
     merged = False
     for _ in range(rng.randint(3, 10)):
-        name = rng.choice(POSE_OPS + SET_OPS)
+        name = rng.choice(POSE_OPS + SET_OPS + CONV_OPS)
         if name == "merge_renumber":
             if merged:
                 continue
@@ -85,7 +90,7 @@ def rows_to_df(rows, rng):
     return motlutil.df_from_cols(cols)
 
 
-def project(df):
+def project(df, tol=1e-9):
     """-> (rows, schema_ok).  Anything that cannot be projected exactly becomes a sentinel the specification rejects."""
     schema_ok = sorted(df.columns) == sorted(motlutil.FIELDS) and len(df.columns) == 20
     rows = []
@@ -106,8 +111,8 @@ def project(df):
         ang = [r["phi"], r["theta"], r["psi"]]
         code = None
         if all(np.isfinite(a) for a in ang):
-            code = geo.matrix_to_code(geo.zxz_matrix(*ang), 1e-9)
-        if code is None or max(rx, rs) > 1e-9 or not all(np.isfinite(v) for v in x + s):
+            code = geo.matrix_to_code(geo.zxz_matrix(*ang), tol)
+        if code is None or max(rx, rs) > tol or not all(np.isfinite(v) for v in x + s):
             code = [0, 0, 0, 0, 0, 0]
             x, s = [0, 0, 0], [0, 0, 0]
         rows.append({"sid": ival(r["subtomo_id"]), "tomo": ival(r["tomo_id"]), "obj": ival(r["object_id"]),
@@ -179,9 +184,69 @@ def do_op(cm, m, sv, op, st_rows, workdir, variant, shared=None):
             cm.EmMotl(m.df).write_out(path)
         m = cm.Motl.load(path)
         os.remove(path)
+    elif name == "sg_roundtrip":
+        # particle list -> STOPGAP form -> particle list, in memory or through a .star file
+        path = os.path.join(workdir, "mixed_%d.star" % variant)
+        v = variant % 4
+        src = m.df                                   # the format classes take a table or a path (not a plain Motl)
+        if v == 0:
+            m = cm.StopgapMotl(cm.StopgapMotl.convert_to_sg_motl(m.df))
+        elif v == 1:
+            cm.emmotl2stopgap(src, path)
+            m = cm.stopgap2emmotl(path)
+        elif v == 2:
+            cm.StopgapMotl(src).write_out(path)
+            m = cm.StopgapMotl(path)
+        else:
+            m = cm.Motl.load(cm.StopgapMotl.convert_to_sg_motl(m.df), "stopgap")
+        ev["via"] = ["memory", "file", "file", "memory"][v]
+        if os.path.exists(path):
+            os.remove(path)
+    elif name == "relion_roundtrip":
+        # particle list -> RELION 3.0 / 3.1 / 4.0 form -> particle list, in memory or through a STAR file
+        path = os.path.join(workdir, "mixed_%d_relion.star" % variant)
+        ver = RELION_VERSIONS[variant % 3]
+        px = RELION_PIXELS[(variant // 3) % 3]
+        r = cm.RelionMotl(m.df, version=ver, pixel_size=px, binning=1.0)
+        if (variant // 9) % 2 == 0:
+            m = cm.RelionMotl(r.create_relion_df(), version=ver, pixel_size=px, binning=1.0)
+            ev["via"] = "memory"
+        else:
+            r.write_out(path, write_optics=bool(ver >= 3.1 and (variant // 18) % 2 == 0))
+            m = cm.RelionMotl(path, version=ver, pixel_size=px, binning=1.0)
+            ev["via"] = "file"
+            os.remove(path)
+        ev["ver"] = int(round(10 * ver))
     else:
         raise core.MachineryError("unknown op %r" % (op,))
     return m, ev
+
+
+def resync(cm, m, name, st_rows):
+    """Harness step after a format round trip (not judged): the formats do not carry the geom* / subtomo_mean fields
+    the projection keeps its row tags in, and a STAR file holds angles to STAR precision.  Returns
+    (plain Motl with the tags re-installed by row position and the pose snapped back onto the exact domain,
+    geom3 as the round trip returned it)."""
+    df = m.df.copy().reset_index(drop=True)
+    def ival(v):
+        return int(v) if np.isfinite(v) and float(v).is_integer() and abs(v) < 10 ** 8 else -1
+    geom3 = [ival(v) for v in df["geom3"].to_numpy(dtype=float)] if "geom3" in df.columns else []
+    if sorted(df.columns) != sorted(motlutil.FIELDS) or len(df) != len(st_rows):
+        return cm.Motl(df) if sorted(df.columns) == sorted(motlutil.FIELDS) else m, geom3
+    df = df.astype(float)
+    for k, r in enumerate(st_rows):
+        t = r["tag"]
+        for f, v in (("geom1", t), ("geom2", 3 * t), ("geom3", t + 0.5), ("geom4", 2 * t), ("geom5", -t), ("subtomo_mean", t / 4.0)):
+            df.loc[k, f] = v
+        if name == "relion_roundtrip":               # RELION form carries neither the score nor the object number
+            df.loc[k, "score"], df.loc[k, "object_id"] = r["score"] + 0.25, r["obj"]
+    rows, _ = project(df, 2e-5)
+    for k, r in enumerate(rows):
+        if r["r"][0] != 0:
+            for f, v in zip(("x", "y", "z", "shift_x", "shift_y", "shift_z"), r["x"] + r["s"]):
+                df.loc[k, f] = v / geo.U
+            df.loc[k, "phi"], df.loc[k, "theta"], df.loc[k, "psi"] = geo.euler_for_code(r["r"])
+    return cm.Motl(df), geom3
 
 
 def execute(ctx, case, scope):
@@ -201,13 +266,15 @@ def execute(ctx, case, scope):
     for i, op in enumerate(case["ops"]):
         if len(st) == 0 and op["name"] not in ("merge_renumber",):
             break                                    # an emptied list ends the history
-        own = (op["name"] in POSE_OPS) == (scope == "pose")
+        own = SCOPE_OF[op["name"]] == scope
         res, err = core.call_guarded(do_op, cm, m, sv, op, st, ctx.workdir, case["seed"] + i, shared)
         if err is not None:
             if own:
                 ctx.fail("call_raises", "step %d %s: %s" % (i + 1, op, err), case, {"op": op["name"], "layer": "mixed"})
             break                                    # a call of the other property that raises only ends the history
         m, ev = res
+        if op["name"] in CONV_OPS:
+            m, ev["geom3"] = resync(cm, m, op["name"], st)
         st, schema_ok = project(m.df)
         ev["post"] = st
         ev["schema_ok"] = bool(schema_ok)
